@@ -372,8 +372,15 @@ func (k Keeper) EstimateGasInternal(c context.Context, req *types.EthCallRequest
 				WithKVGasConfig(storetypes.GasConfig{}).
 				WithTransientKVGasConfig(storetypes.GasConfig{})
 		}
+		// An estimation made for another module runs inside a transaction: the tracer configured for this node
+		// (app.toml evm.tracer) must not take part in it, its reads of the state would be charged to the
+		// transaction's gas meter on this node only.
+		var tracer vm.EVMLogger
+		if fromType == types.Internal {
+			tracer = types.NewNoOpTracer()
+		}
 		// pass false to not commit StateDB
-		rsp, err = k.ApplyMessageWithConfig(tmpCtx, msg, nil, false, cfg, txConfig)
+		rsp, err = k.ApplyMessageWithConfig(tmpCtx, msg, tracer, false, cfg, txConfig)
 		if err != nil {
 			if errors.Is(err, core.ErrIntrinsicGas) {
 				return true, nil, nil // Special case, raise gas limit
